@@ -114,6 +114,35 @@ fn check_walk(ctx: &mut Ctx, e: &Envelope) {
         ctx.violation(&format!("walk-structure/{}", class), &format!("visit #{}: got {:?} want {:?} (visited {} of {})", i, got.get(i).map(|g| (g.1, g.2, g.3, g.4)), want.get(i).map(|g| (g.1, g.2, g.3, g.4)), got.len(), want.len()), replay());
     }
     ctx.count_n("structure_visits_checked", want.len() as u64);
+    // the same walk with a visitor that hands a context down only from every other element: a child receives
+    // exactly what the visit of ITS parent returned - None when that visit returned None
+    {
+        ctx.eval();
+        ctx.count("mixed_context_walks");
+        let seen2: RefCell<Vec<Option<usize>>> = RefCell::new(Vec::new());
+        let r = trap::guard(|| {
+            let visitor = |_x: Envelope, _level: usize, _edge: EdgeType, parent: Option<usize>| -> Option<usize> {
+                let mut s = seen2.borrow_mut();
+                s.push(parent);
+                let me = s.len() - 1;
+                if me % 2 == 0 { Some(me) } else { None }
+            };
+            e.walk(false, &visitor);
+        });
+        if r.is_ok() {
+            let got2 = seen2.into_inner();
+            let bad = want.iter().enumerate().position(|(i, w)| {
+                let expect = match w.4 {
+                    Some(p) if p % 2 == 0 => Some(p),
+                    _ => None,
+                };
+                got2.get(i) != Some(&expect)
+            });
+            if let Some(i) = bad {
+                ctx.violation("walk-structure/context-threading", &format!("visit #{} received context {:?}; its parent is visit {:?}, which returned {}", i, got2.get(i), want[i].4, if want[i].4.map(|p| p % 2 == 0).unwrap_or(false) { "Some" } else { "None" }), replay());
+            }
+        }
+    }
     // tree mode
     ctx.eval();
     let seen: RefCell<Vec<(D32, Kind, usize, Option<usize>)>> = RefCell::new(Vec::new());
@@ -312,6 +341,15 @@ fn check_lookups(ctx: &mut Ctx, e: &Envelope, t: &T, rng: &mut Rng) {
         let s = if a.kind == Kind::Node { &a.children[0] } else { a };
         if s.kind == Kind::Assertion {
             preds.push(s.children[0].digest);
+        }
+    }
+    // ... and, for a predicate that is itself a node, the digest of its bare subject (a different key: only exact
+    // digest matches count)
+    for a in t.children.iter().skip(1) {
+        let s = if a.kind == Kind::Node { &a.children[0] } else { a };
+        if s.kind == Kind::Assertion && s.children[0].kind == Kind::Node {
+            ctx.count("lookup_by_subject_of_decorated_predicate");
+            preds.push(s.children[0].children[0].digest);
         }
     }
     preds.sort();
